@@ -1,6 +1,7 @@
 package vhlib
 
 import (
+	"encoding/json"
 	"flag"
 	"fmt"
 	"os"
@@ -116,4 +117,43 @@ func Main(suites Suites) {
 	for _, f := range c.R.Failures {
 		fmt.Printf("  FAIL %s %s [%s] %s\n", f.Kind, f.Suite, f.Sig, f.What)
 	}
+}
+
+// ReplayInputs returns the recorded inputs of the failures of one suite from the replay
+// file (written by bin/check), or nil when not replaying.
+func (c *Ctx) ReplayInputs(suite string) []json.RawMessage {
+	if c.Replay == "" {
+		return nil
+	}
+	b, err := os.ReadFile(c.Replay)
+	if err != nil {
+		c.R.Note("cannot read replay file: %v", err)
+		return []json.RawMessage{}
+	}
+	var doc struct {
+		Failures []struct {
+			Suite string          `json:"suite"`
+			Input json.RawMessage `json:"input"`
+		} `json:"failures"`
+		Corr []struct {
+			Suite string          `json:"suite"`
+			Input json.RawMessage `json:"input"`
+		} `json:"correspondence_mismatches"`
+	}
+	if err := json.Unmarshal(b, &doc); err != nil {
+		c.R.Note("cannot parse replay file: %v", err)
+		return []json.RawMessage{}
+	}
+	out := []json.RawMessage{}
+	for _, f := range doc.Failures {
+		if f.Suite == suite {
+			out = append(out, f.Input)
+		}
+	}
+	for _, f := range doc.Corr {
+		if f.Suite == suite {
+			out = append(out, f.Input)
+		}
+	}
+	return out
 }
